@@ -141,6 +141,13 @@ class Unit(Translator):
         rt = self.fn_ret_type(callee) if callee['kind'] not in ('CXXConstructorDecl', 'CXXDestructorDecl') else None
         if rt is not None and rt.is_ref():
             return '(*%s)' % text
+        if rt is not None and getattr(rt, 'kind', None) == 'named':
+            # a member typedef of a reference type (value::cref): the C function returns a pointer
+            a = self.resolve_alias(rt.name)
+            if a:
+                try:
+                    if self.tparse(a).is_ref(): return '(*%s)' % text
+                except Unsupported: pass
         return text
 
     def call_function(self, P, n, r, obj, args):
@@ -337,6 +344,15 @@ class Unit(Translator):
         if cat in ('opaque', 'unknown') and self.opts.get('unknown_types_opaque'):
             self.dropped.add('construction of opaque type %s: the object is unconstrained and the constructor arguments are not evaluated' % t.strip_ref().name)
             tmp = P.new_temp(lambda nm: self.decl_text_t(t.strip_ref(), nm))
+            if self.opts.get('eval_opaque_args'):
+                # the object stays unconstrained, but its constructor arguments are evaluated (for their own obligations:
+                # an optional dereferenced, an index, a call); an argument outside the translator is skipped and listed
+                ev = []
+                for a in args:
+                    try: ev.append('(void)(%s)' % P.ex(a))
+                    except Unsupported as e:
+                        self.dropped.add('argument of the constructor of opaque type %s not evaluated: %s' % (t.strip_ref().name, str(e)[:120]))
+                if ev: return '(%s, %s)' % (', '.join(ev), tmp)
             return tmp
         return self.lib.construct(P, n, t, cat, args)
 
